@@ -95,7 +95,7 @@ struct SessionResult {
     end_again: Option<ReadResult>,
 }
 
-async fn serve(listener: TcpListener, msgs: Vec<Msg>, close: Close, collect_writes: usize) -> Vec<Message> {
+async fn serve(listener: TcpListener, msgs: Vec<Msg>, close: Close, collect_writes: usize, drain_before_abrupt_close: bool) -> Vec<Message> {
     let Ok((tcp, _)) = listener.accept().await else { return vec![] };
     let Ok(mut ws) = tokio_tungstenite::accept_async(tcp).await else { return vec![] };
     for m in msgs {
@@ -131,9 +131,15 @@ async fn serve(listener: TcpListener, msgs: Vec<Msg>, close: Close, collect_writ
             // keep consuming what the client still sends (its automatic pongs for pings it has yet to read) until it
             // falls silent: dropping the socket with unread data, or while the client is about to write, turns the
             // closure into a TCP reset / EPIPE on the client's own write - TCP semantics, not the adaptor's
-            while let Ok(Some(Ok(m))) = tokio::time::timeout(Duration::from_millis(250), ws.next()).await {
-                if let Message::Binary(_) = m {
-                    got.push(m);
+            // (the close-race sessions send no pings and no keep-alives, so the client never writes: they drop at once)
+            while drain_before_abrupt_close {
+                match tokio::time::timeout(Duration::from_millis(250), ws.next()).await {
+                    Ok(Some(Ok(m))) => {
+                        if let Message::Binary(_) = m {
+                            got.push(m);
+                        }
+                    },
+                    _ => break,
                 }
             }
             drop(ws);
@@ -183,7 +189,7 @@ fn run_session(c: &Corpus, r: &mut Rng, compressed: bool, style: u64, close: Clo
         // the client answers every keep-alive in the stream with one binary message; the server reads those
         // and the client's own writes before it closes, so that no unread data turns the close into a TCP reset
         let nwrites = to_write.len() + n_replies;
-        let server = tokio::spawn(serve(listener, msgs, close, nwrites));
+        let server = tokio::spawn(serve(listener, msgs, close, nwrites, true));
         let (ws, _) = tokio::time::timeout(WATCHDOG, tokio_tungstenite::connect_async(format!("ws://{addr}/connect"))).await.map_err(|_| "connect watchdog".to_string())?.map_err(|e| e.to_string())?;
         let mut framed = tokio_impl::Framed::new(Box::new(tokio_impl::WebsocketStream::from(ws)), Codec::new(mode_of(compressed)));
         let mut res = SessionResult { results: vec![], end: None, end_again: None };
@@ -299,7 +305,7 @@ fn run_close_race(c: &Corpus, r: &mut Rng, compressed: bool, close: Close, per_m
     let out: Result<(Vec<ReadResult>, Option<ReadResult>), String> = rt.block_on(async {
         let listener = TcpListener::bind("127.0.0.1:0").await.map_err(|e| e.to_string())?;
         let addr = listener.local_addr().map_err(|e| e.to_string())?;
-        let server = tokio::spawn(serve(listener, msgs, close, 0));
+        let server = tokio::spawn(serve(listener, msgs, close, 0, false));
         let (ws, _) = tokio::time::timeout(WATCHDOG, tokio_tungstenite::connect_async(format!("ws://{addr}/connect"))).await.map_err(|_| "connect watchdog".to_string())?.map_err(|e| e.to_string())?;
         let mut framed = tokio_impl::Framed::new(Box::new(tokio_impl::WebsocketStream::from(ws)), Codec::new(mode_of(compressed)));
         // give the server time to finish sending and to close before the first read; if it has not closed by
@@ -698,7 +704,7 @@ fn run_direct(r: &mut Rng, bufsize: usize, p: &mut Part) -> Result<(), String> {
     let got: Result<Vec<u8>, String> = rt.block_on(async {
         let listener = TcpListener::bind("127.0.0.1:0").await.map_err(|e| e.to_string())?;
         let addr = listener.local_addr().map_err(|e| e.to_string())?;
-        let server = tokio::spawn(serve(listener, msgs, Close::Frame, 0));
+        let server = tokio::spawn(serve(listener, msgs, Close::Frame, 0, false));
         let (ws, _) = tokio_tungstenite::connect_async(format!("ws://{addr}/")).await.map_err(|e| e.to_string())?;
         let mut s = tokio_impl::WebsocketStream::from(ws);
         let mut out = vec![];
